@@ -2,6 +2,7 @@ package drivers
 
 import (
 	"encoding/json"
+	"errors"
 	"fmt"
 	"math/rand"
 	"os"
@@ -13,6 +14,7 @@ import (
 	"time"
 
 	bolt "go.etcd.io/bbolt"
+	berrors "go.etcd.io/bbolt/errors"
 	"go.etcd.io/bbolt/verifh/exec"
 	"go.etcd.io/bbolt/verifh/gen"
 	"go.etcd.io/bbolt/verifh/iotrace"
@@ -42,6 +44,7 @@ type concRes struct {
 	ReaderDumps  int64            `json:"reader_dumps"`
 	Commits      int              `json:"commits"`
 	Remaps       int              `json:"remaps"`
+	SizeRejects  int              `json:"size_rejects"`
 	DistinctLag  map[string]int64 `json:"lags"` // newest-at-check minus reader id -> count
 	OverlapDumps int64            `json:"dumps_overlapping_a_commit"`
 	YieldPoints  map[string]int64 `json:"yield_points"`
@@ -208,6 +211,50 @@ func concRound(a *concArgs, round int) concRes {
 		if !ok {
 			_ = tx.Rollback()
 			break
+		}
+		if wr.Intn(8) == 1 {
+			// a commit rejected by the size limit: bbolt rolls the transaction back itself (freelist reload)
+			// while readers keep coming and going. The value needs a run of pages no free run can offer, so the
+			// high-water mark would have to move, which the limit forbids.
+			mk := gen.Step{Op: "createIf", N: 3}
+			big := gen.Step{Op: "put", P: []int{3}, K: &gen.K{ID: 990}, V: &gen.V{Seed: wr.Uint32(), Len: 300 * ps}}
+			sim.Apply(&mk)
+			sim.Apply(&big)
+			if err := applyPlain(tx, &mk); err != nil {
+				fail("writer createIf: %v", err)
+				_ = tx.Rollback()
+				break
+			}
+			if err := applyPlain(tx, &big); err != nil {
+				fail("writer put: %v", err)
+				_ = tx.Rollback()
+				break
+			}
+			id := tx.ID()
+			vmu.Lock()
+			versions[id] = exec.ModelDump(sim.Cur)
+			vmu.Unlock()
+			registered.Store(int64(id)) // only ever loosens the readers' id-range check
+			db.MaxSize = 1
+			err := tx.Commit()
+			db.MaxSize = 0
+			switch {
+			case err == nil:
+				sim.Apply(&gen.Step{Op: "commit"})
+				registered.Store(int64(id))
+				acked.Store(int64(id))
+				commitSeq.Add(1)
+				res.Commits++
+			case errors.Is(err, berrors.ErrMaxSizeReached):
+				sim.Apply(&gen.Step{Op: "rollback"})
+				vmu.Lock()
+				delete(versions, id)
+				vmu.Unlock()
+				res.SizeRejects++
+			default:
+				fail("commit under an unsatisfiable size limit: %v", err)
+			}
+			continue
 		}
 		rollback := wr.Intn(8) == 0
 		if rollback {
@@ -384,6 +431,7 @@ func runC02(c *Ctx) int {
 				tot.ReaderDumps += r.ReaderDumps
 				tot.Commits += r.Commits
 				tot.Remaps += r.Remaps
+				tot.SizeRejects += r.SizeRejects
 				tot.OverlapDumps += r.OverlapDumps
 				for k, v := range r.DistinctLag {
 					tot.DistinctLag[k] += v
@@ -406,6 +454,7 @@ func runC02(c *Ctx) int {
 		cov["concurrent_dumps_overlapping_a_commit"] = tot.OverlapDumps
 		cov["concurrent_commits"] = tot.Commits
 		cov["concurrent_remaps_observed"] = tot.Remaps
+		cov["concurrent_commits_rejected_by_size_limit"] = tot.SizeRejects
 		cov["concurrent_reader_lag_histogram"] = tot.DistinctLag
 		cov["yield_points_passed"] = tot.YieldPoints
 		cov["race_reports"] = races
